@@ -504,12 +504,12 @@ theorem clsGet_append_self (cs : Classes) (k : Name) (c : Cls) (h : clsGet cs k 
     · simp [h0] at h
     · simp only [h0, ↓reduceIte] at h ⊢; exact ih h
 
-/-- the first definition in the sequence whose kind folds to `u` and whose attribute names do not collide (a
-    definition with colliding attribute names is rejected and defines nothing) -/
+/-- the first definition in the sequence whose kind folds to `u` and whose attribute names are acceptable (a
+    definition with reserved or colliding attribute names is rejected and defines nothing) -/
 def firstDef (u : Name) : List (Name × List (Name × Name)) → Option Cls
   | [] => none
   | (k, as) :: r =>
-    if fold k = u ∧ dupFold (as.map (·.1)) = false then some { kind := k, attrs := as, refs := [] } else firstDef u r
+    if fold k = u ∧ badNames (as.map (·.1)) = false then some { kind := k, attrs := as, refs := [] } else firstDef u r
 
 theorem defineAll_get (u : Name) : ∀ (defs : List (Name × List (Name × Name))) (cs : Classes),
     clsGet (defineAll cs defs) u = match clsGet cs u with
@@ -527,7 +527,7 @@ theorem defineAll_get (u : Name) : ∀ (defs : List (Name × List (Name × Name)
         have : ¬ fold k = u := by intro e; rw [e] at hk; rw [hk] at hu; cases hu
         simp [firstDef, this]
     | none =>
-      cases hd : dupFold (as.map (·.1)) with
+      cases hd : badNames (as.map (·.1)) with
       | true =>
         simp only [↓reduceIte, defineAll_get u r cs]
         cases hu : clsGet cs u with
